@@ -477,6 +477,28 @@ def decode {D} (dc : Decoder D) (cfg : StreamCfg) (req : ReqInfo) (σ : List Nat
       if isNoBody req st then mkResult w (.ok st f []) false nt c
       else readBody dc cfg req fuel st f c nt w
 
+/-- how the peer ends what it sends for an exchange -/
+inductive Ending where
+  /-- orderly close (FIN): reads return `b''` -/
+  | closed
+  /-- reset (RST, ECONNRESET / EPIPE): a read that needs more fails -/
+  | reset
+  /-- nothing: the connection stays open, a read that needs more waits -/
+  | stillOpen
+  deriving DecidableEq, Repr
+
+/-- `decode` for every ending.  A reset is NOT an end of message: wherever the reader needs
+more bytes than were delivered, `reader.read()` raises ConnectionResetError, which
+`run_network_operation` turns into NetworkError (and closes the connection); a message that
+was complete by its own framing before the reset is unaffected. -/
+def decodeE {D} (dc : Decoder D) (cfg : StreamCfg) (req : ReqInfo) (σ : List Nat) (b : Bytes) (e : Ending) : Result :=
+  match e with
+  | .closed => decode dc cfg req σ { bytes := b, eof := true }
+  | .stillOpen => decode dc cfg req σ { bytes := b, eof := false }
+  | .reset =>
+    let r := decode dc cfg req σ { bytes := b, eof := false }
+    if r.outcome == .stalled then { r with outcome := .exc .NetworkError, closed := true } else r
+
 /-- the decoder used when no content coding is modelled: it is never consulted for
 responses without `Content-Encoding: gzip|deflate` -/
 def idDecoder : Decoder Unit :=
